@@ -2,6 +2,9 @@
 //!   (1 1 shape data req probes write)   write = () | (((idx) v))
 //!   (1 2 shape datalen)
 //!   (1 3 shape req probes)              Tensor::from_fn with producer fold(acc * 7 + i + 1) from 1000
+//!   (1 4 kind ...)                      conversions scalar / Tensor / TensorView / Matrix / MatrixView and
+//!                                       the interop wrappers, element exact (c01/conv.rs has the language)
+mod conv;
 use crate::guarded;
 use crate::sx::*;
 use crate::with_d;
@@ -64,6 +67,7 @@ pub fn run(args: &[Sx]) -> Sx {
             }
             with_d!(d, from_fn(&shape, &req, &probes))
         }
+        Some(4) => conv::run(args),
         Some(2) if args.len() == 3 => {
             let (Some(shape), Some(len)) = (args[1].pairs_usize(), args[2].usize()) else {
                 return bad_case();
